@@ -42,6 +42,9 @@ class Unknown(Exception):
     pass
 
 
+VALUE_TESTS: List[str] = []   # predicates on the *value* of an element (math.isfinite(v), v > 0, len(v) ...)
+
+
 def teval(e: ast.AST, env: Dict[str, str]) -> bool:
     """Evaluate a type predicate for variables bound to abstract types."""
     if isinstance(e, ast.BoolOp):
@@ -73,12 +76,19 @@ def teval(e: ast.AST, env: Dict[str, str]) -> bool:
             raise Unknown(norm(e))
         r = _base(env[v]) == "NoneType"
         return r if isinstance(e.ops[0], ast.Is) else not r
-    if isinstance(e, ast.Compare) and len(e.ops) == 1 and isinstance(e.ops[0], ast.In) \
+    if isinstance(e, ast.Compare) and len(e.ops) == 1 and isinstance(e.ops[0], (ast.In, ast.NotIn)) \
             and isinstance(e.left, ast.Constant):
-        return True  # '"time" in kwargs' -- the slot is supplied
+        return isinstance(e.ops[0], ast.In)  # '"time" in kwargs' -- the slot is supplied
     if norm(e) in env:
         t_ = env[norm(e)]
         return t_ != "NoneType" and not t_.endswith("!")  # truthiness of the representative value
+    # a call / comparison on the element's value (not its type): it can only reject some values of a
+    # type, never admit a type; recorded and evaluated as "holds for the representative value"
+    names_ = {x.id for x in ast.walk(e) if isinstance(x, ast.Name)}
+    if names_ & set(env) and isinstance(e, (ast.Call, ast.Compare)):
+        VALUE_TESTS.append(norm(e))
+        fn_ = norm(e.func) if isinstance(e, ast.Call) else ""
+        return fn_.endswith(("isfinite",)) or not fn_  # a well-behaved representative: finite, in range
     raise Unknown(norm(e))
 
 
@@ -155,16 +165,22 @@ EXPECT = {
 }
 
 
-@rule("C14.R2", ["C14"], min_instances=8, design="3.14")
+@rule("C14.R2", ["C14", "C05"], min_instances=8, design="3.14")
 def validators_accept_exactly(ctx):
     """Abstract evaluation of every validator over a finite type universe (bool <: int): accepted sets equal the documented ones."""
     for name, exp in EXPECT.items():
         f = ctx.prog.func(name, "C14.R2")
         m = f.params()[0]
+        del VALUE_TESTS[:]
         try:
             got = element_checks(f, m)
         except Unknown as ex:
             raise AnalysisError("C14.R2", f"{name}: predicate outside the evaluable fragment: {ex}")
+        vt = sorted(set(VALUE_TESTS))
+        yield Ob("C14.R2", ["C05"], f"{name} | accepts every value of the documented types", not vt,
+                 "only type tests" if not vt else
+                 f"`{vt[0]}` rejects some values of an accepted type (every finite or infinite float, zero, negative zero and "
+                 f"subnormals are valid field values; every string is a valid tag value)", f.loc())
         # mapping test
         mt = False
         for n in walk_local(f.node):
@@ -467,7 +483,7 @@ def in_band_sentinels(ctx):
         raise AnalysisError("C05.R2", "sentinel encoders not found")
 
 
-@rule("C05.R3", ["C05", "C04"], min_instances=2, design="3.5")
+@rule("C05.R3", ["C05", "C04", "C11"], min_instances=2, design="3.5")
 def lossy_narrowing(ctx):
     """An int|float slot must not be encoded through float(): integers above 2**53 collapse. The decoder's int/float/None discrimination matches the encoder's alphabet."""
     ser = ctx.prog.func("Point._serialize_to_list", "C05.R3")
@@ -500,7 +516,7 @@ def lossy_narrowing(ctx):
         if not tr or not any(any(isinstance(s_, ast.Assign) and const_value(s_.value) is None for s_ in h.body)
                              for h in tr[0].handlers):
             bad.append("a value float() cannot parse does not decode to None")
-    yield Ob("C05.R3", ["C05", "C04"], f"{de.qual} | numeric decoding alphabet", not bad,
+    yield Ob("C05.R3", ["C05", "C04", "C11"], f"{de.qual} | numeric decoding alphabet", not bad,
              "; ".join(bad) if bad else "digits -> int, float() -> float, anything else -> None", de.loc())
     if n_sites == 0:
         yield Ob("C05.R3", ["C05", "C04"], f"{ser.qual} | field value encoder", True,
